@@ -259,6 +259,7 @@ type c13Pipe struct {
 	Compression string `json:"compression"` // as spelled in STARTUP ("" = none)
 	Options     int    `json:"options_before"`
 	Queries     []bool `json:"queries_compressed"` // one entry per pipelined query: sent compressed?
+	After       []bool `json:"options_after,omitempty"` // OPTIONS frames (empty body) after the queries: sent with the compressed flag?
 }
 
 func c13PipeCheck(c c13Pipe) *evid.Fail {
@@ -307,6 +308,12 @@ func c13PipeCheck(c c13Pipe) *evid.Fail {
 		tok := nextToken()
 		toks[stream] = tok
 		if f := add(buildFrame(v, stream, &message.Query{Query: "SELECT * FROM ks1.t WHERE k = '" + tok + "'", Options: &message.QueryOptions{Consistency: primitive.ConsistencyLevelOne}}, false, alg, compressed && alg != "")); f != nil {
+			return f
+		}
+	}
+	for _, compressed := range c.After {
+		stream++
+		if f := add(buildFrame(v, stream, &message.Options{}, false, alg, compressed && alg != "")); f != nil {
 			return f
 		}
 	}
@@ -716,7 +723,7 @@ func TestC13(t *testing.T) {
 		}
 		v := accepted[rapid.IntRange(0, len(accepted)-1).Draw(rt, "v")]
 		c := c13Pipe{MaxVersion: int(maxV), Version: int(v), Compression: rapid.SampledFrom([]string{"", "lz4", "snappy", "LZ4", "Snappy"}).Draw(rt, "comp"),
-			Options: rapid.IntRange(0, 2).Draw(rt, "options"), Queries: rapid.SliceOfN(rapid.Bool(), 1, 6).Draw(rt, "queries")}
+			Options: rapid.IntRange(0, 2).Draw(rt, "options"), Queries: rapid.SliceOfN(rapid.Bool(), 1, 6).Draw(rt, "queries"), After: rapid.SliceOfN(rapid.Bool(), 0, 2).Draw(rt, "after")}
 		if v == primitive.ProtocolVersion5 && strings.EqualFold(c.Compression, "snappy") {
 			c.Compression = "lz4"
 		}
